@@ -370,13 +370,15 @@ def check(pid, tier):
         rest = re.sub(r'^property=\S+\s*', '', f['raw'][len('finding:'):].strip())
         print(f"KNOWN-FINDING: property={pid} {rest}")
 
-    # witness drivers (concrete runs of the real crate; never counted as proof):
-    #   thorough: always — conformance of contracts and code;  quick: only to attach a failing input to a
-    #   rejected obligation, or to decide a unit the verifier could not (undecided)
+    # witness drivers (concrete runs of the real crate; bounded sampling, never counted as proof). They run on
+    # every check: they attach a failing input to a rejected obligation, decide units the verifier could not
+    # (undecided), and stand in — labelled bounded — for the functions no contract reaches (VM::execute/advance,
+    # Storage, Memory, the lifting pipeline as a whole).  VERIF_TIER scales their case counts.
     wit = None
-    if tier == 'thorough' or failures or undecided:
+    if True:
         try:
             import witness
+            os.environ['VERIF_TIER'] = tier
             wit = witness.for_property(pid, REPO, seed)
         except Exception as e:   # the witness phase is best-effort
             wit = {'ok': False, 'witnesses': [], 'cases': 0, 'log': f'witness phase error: {e}', 'wall': 0, 'cmd': ''}
